@@ -105,6 +105,7 @@ class SimpleObjectDeserialize:
     kinds = {"data": "dict", "self.fields": "tuple", "self.all_aliases": "set", "data.keys() - self.all_aliases": "set"}
     raises = ["ValidationError"]
     int_vars = ["fields_count"]
+    shards = 12  # 279 obligations, some of them slow: discharged by 12 worker processes
 
     # -- vocabulary
     def _terms(self, c):
